@@ -48,6 +48,8 @@ func main() {
 		defer out.Close()
 		st := newStats()
 		r := &runner{out: out, st: st}
+		// the two real-timeout scripts start now and finish last (10 s of wall clock overlap the run)
+		deferred := r.startDeferred(timeoutScripts())
 		// corpus first
 		for _, sc := range loadCorpus(os.Getenv("VERIF_CORPUS")) {
 			r.runScript(sc)
@@ -61,7 +63,11 @@ func main() {
 		}
 		for i := 0; i < n; i++ {
 			r.runScript(genScript(rng.Fork(), i))
+			if i%3 == 0 {
+				r.runScript(genLife(rng.Fork(), i))
+			}
 		}
+		r.finishDeferred(deferred)
 		st.Ops = out.N
 		st.Kinds = out.Kinds
 		b, _ := json.Marshal(st)
@@ -74,6 +80,9 @@ func main() {
 		scripts = append(scripts, leadScripts()...)
 		for i := 0; i < n; i++ {
 			scripts = append(scripts, genScript(rng.Fork(), i))
+			if i%3 == 0 {
+				scripts = append(scripts, genLife(rng.Fork(), i))
+			}
 		}
 		if p := a["replay"]; p != "" {
 			scripts = loadScriptFile(p)
